@@ -16,7 +16,7 @@ FUNCTIONS = ["Scalar.GetValue/GetAbstractValue", "AbstractValueWithQuantityObjec
              "Quantity.ConvertScalarValue (cached _tobase fast path)", "Quantity.Convert", "UnitDatabase.Convert float/int/list/tuple branches",
              "UnitDatabase._ConvertWithExp (math.pow shimmed)", "ConvertNumpyArray (additional conversion type)", "Array.GetAbstractValue incl. list-of-tuples",
              "Scalar._GetDefaultValue", "FixedArray.IndexAsScalar/ChangingIndex", "UnitSystemManager.ConvertToCurrent/ConvertScalarToCurrent"]
-ROUTES = ["scalar.GetValue", "scalar.CreateCopy", "ChangeScalars", "quantity.ConvertScalarValue", "quantity.Convert", "db.Convert.float",
+ROUTES = ["scalar.CreateCopy.category", "array.CreateCopy.category", "fixedarray.ChangingIndex.neg", "scalar.GetValue", "scalar.CreateCopy", "ChangeScalars", "quantity.ConvertScalarValue", "quantity.Convert", "db.Convert.float",
           "db.Convert.int", "db.Convert.list", "db.Convert.tuple", "db.Convert.numpy", "array.GetValues.list", "array.GetValues.tuple",
           "array.GetValues.numpy", "array.GetValues.tuples", "array.CreateCopy", "fixedarray.IndexAsScalar", "fixedarray.ChangingIndex",
           "manager.ConvertToCurrent", "manager.ConvertScalarToCurrent", "category-default", "own-unit.simple", "own-unit.derived",
@@ -37,7 +37,7 @@ COVER = [("length", "length", "m", "ft"), ("length", "depth", "cm", "km"), ("tem
          ("temperature", "temperature", "degF", "degC"), ("temperature", "temperature", "K", "degR"),
          ("volume flow rate", "volume flow rate", "m3/d", "1000ft3/d"), ("volume flow rate", "gas volume flow rate", "M(ft3)/d", "m3/s"),
          ("pressure", "pressure", "psi", "kgf/cm2"), ("dimensionless", "percentage", "%", "-"), ("mass", "mass", "lbm", "g")]
-SCALAR_ROUTES = ROUTES[:4]
+SCALAR_ROUTES = ["scalar.GetValue", "scalar.CreateCopy", "ChangeScalars", "quantity.ConvertScalarValue"]
 EXP_PAIRS = [("length", "m", "cm"), ("length", "ft", "km"), ("time", "min", "s"), ("mass", "lbm", "kg")]
 
 
@@ -89,9 +89,9 @@ def items(tier, seed):
 
 def inputs(cfg):
     d = {"x%d" % i: "real" for i in range(max(cfg["n"], 1))}
-    if cfg["r"] in ("category-default", "fixedarray.ChangingIndex"):
+    if cfg["r"] in ("category-default", "fixedarray.ChangingIndex", "fixedarray.ChangingIndex.neg"):
         d["d"] = "real"
-    if cfg["r"] == "array.GetValues.tuples" or cfg["r"].startswith("fixedarray"):
+    if cfg["r"] == "array.GetValues.tuples" or cfg["r"].startswith("fixedarray"):  # (incl. fixedarray.ChangingIndex.neg)
         d["x1"] = "real"
         d["x2"] = "real"
     return d
@@ -134,6 +134,19 @@ def run(cfg, V):
         cu2 = (s.GetUnit() + "_")[:-1]  # an equal unit string that is a different object (e.g. parsed from text)
         return {"vals": [s.GetValue(v)], "own": s.GetValue(s.GetUnit()) is x and s.GetValue() is x and s.GetValue(cu2) is x and s.CreateCopy(unit=cu2).GetValue() is x,
                 "own_spelled": [s.GetValue(u)]}
+    if r in ("scalar.CreateCopy.category", "array.CreateCopy.category"):
+        others = [c for c in db.IterCategories() if db.GetCategoryQuantityType(c) == qt and c != cat]
+        cat2 = others[0] if others else cat
+        s = Scalar(x, u, cat) if r.startswith("scalar") else Array([x, x], u, cat)
+        c = s.CreateCopy(unit=v, category=cat2)
+        val = c.GetAbstractValue()
+        return {"vals": [val] if r.startswith("scalar") else list(val), "flat_in": [x] if r.startswith("scalar") else [x, x], "meta": _meta(c),
+                "src": {"cat": cat2, "qt": qt}, "src_kept": _meta(s)["cat"] == cat and s.GetAbstractValue() is not None}
+    if r == "fixedarray.ChangingIndex.neg":
+        fa = FixedArray(3, [V["x0"], V["x1"], V["x2"]], u, cat)
+        n1 = fa.ChangingIndex(-1, Scalar(V["d"], v, cat))
+        n2 = fa.ChangingIndex(-3, V["d"])
+        return {"neg": (list(n1.GetValues()), n1.GetUnit(), list(n2.GetValues()), n2.GetUnit())}
     if r == "scalar.CreateCopy":
         s = Scalar(x, u, cat)
         c = s.CreateCopy(unit=v)
@@ -255,6 +268,13 @@ def props(cfg, T, obs):
         return [("conversion inside one quantity type does not raise", False)]
     db = get_db("default")
     P = []
+    if r == "fixedarray.ChangingIndex.neg":
+        v1, u1, v2, u2 = obs["neg"]
+        want1 = [oracle_convert(db, qt, u, v, T["x0"]), oracle_convert(db, qt, u, v, T["x1"]), T["d"]]
+        want2 = [T["d"], T["x1"], T["x2"]]
+        return [("ChangingIndex with a negative index replaces the element counted from the end",
+                 z3.And(*[approx(a, b) for a, b in zip(v1, want1)], *[approx(a, b) for a, b in zip(v2, want2)],
+                        z3.BoolVal(len(v1) == 3 and len(v2) == 3 and u1 == db.GetInfo(qt, v).unit and u2 == db.GetInfo(qt, u).unit)))]
     if r == "fixedarray.ChangingIndex":
         want1 = [oracle_convert(db, qt, u, v, T["x0"]), T["d"], oracle_convert(db, qt, u, v, T["x2"])]
         want2 = [T["x0"], oracle_convert(db, qt, v, u, T["d"]), T["x2"]]
@@ -273,6 +293,8 @@ def props(cfg, T, obs):
             ins = [term(t) for t in obs["flat_in"]] if not isinstance(obs["flat_in"][0], z3.ExprRef) else obs["flat_in"]
             if r == "category-default":
                 ins = [T["d"]]
+            elif r.endswith("CreateCopy.category"):
+                ins = [T["x0"]] * len(obs["vals"])
             elif r == "fixedarray.IndexAsScalar":
                 ins = [T["x1"]]
             elif r == "array.GetValues.tuples":
